@@ -2,7 +2,7 @@
 """Regenerate MANIFEST.json from props.json (claimed properties) and properties.jsonl."""
 import json, os, subprocess
 ROOT = os.path.dirname(os.path.dirname(os.path.abspath(__file__)))
-props = json.load(open(os.path.join(ROOT, "props.json")))
+props = {n[:-5]: json.load(open(os.path.join(ROOT, "props.d", n))) for n in sorted(os.listdir(os.path.join(ROOT, "props.d"))) if n.endswith(".json")}
 all_ids = [json.loads(l)["id"] for l in open(os.path.join(ROOT, "properties.jsonl")) if l.strip()]
 pending = json.load(open(os.path.join(ROOT, "tools", "pending.json")))
 hooks = subprocess.run(["git", "-C", "/repo", "log", "--format=%H %s"], stdout=subprocess.PIPE, text=True).stdout.splitlines()
